@@ -143,7 +143,25 @@ func runC05(t testing.TB, c C05Case) (key, what string, classes map[string]int) 
 		return k, w, classes
 	}
 	classes["start-up-notices"]++
+	servedStill := func(where string) (string, string) {
+		for _, sni := range []string{"", "localhost", "cb.example"} {
+			got, err := s.ServedPinSNI(sni)
+			if err != nil {
+				return "HARNESS", where + ": handshake: " + err.Error()
+			}
+			if got != pin {
+				return "served-key-differs-from-advertised", fmt.Sprintf("%s: a handshake with server name %q is answered with the key sha256//%s, but this listener advertises sha256//%s", where, sni, got, pin)
+			}
+		}
+		classes["served-key-probed-with-and-without-sni"]++
+		return "", ""
+	}
 	for i, st := range c.Steps {
+		if i > 0 {
+			if k, w := servedStill(fmt.Sprintf("after step %d (%s)", i-1, c.Steps[i-1].Kind)); k != "" {
+				return k, w, classes
+			}
+		}
 		from := s.Seq()
 		where := fmt.Sprintf("step %d (%s)", i, st.Kind)
 		switch st.Kind {
@@ -185,6 +203,23 @@ func runC05(t testing.TB, c C05Case) (key, what string, classes map[string]int) 
 				return k, w, classes
 			}
 			classes["reprinted-help"]++
+		case "cache-replaced-while-running":
+			// somebody (a second instance, the operator) puts another key pair
+			// where the cache file is while this listener is up: what this
+			// listener advertises and what it serves must stay the same key
+			if cfg.CertFile == "" {
+				continue
+			}
+			os.Remove(cfg.CertFile)
+			certPEM, keyPEM, _, err := sstls.GenerateSelfSignedCertificate("replacement", []string{"localhost"}, nil, 24*time.Hour)
+			if err != nil {
+				return "HARNESS", err.Error(), classes
+			}
+			if err := sstls.SaveCertificate(cfg.CertFile, certPEM, keyPEM); err != nil {
+				return "HARNESS", err.Error(), classes
+			}
+			classes["cache-replaced-while-running"]++
+			firstPin = "" // the next restart loads the replacement
 		case "restart", "custom-script", "restart-after-cache-removed":
 			s.Stop()
 			if st.Kind == "restart-after-cache-removed" {
@@ -268,6 +303,9 @@ func runC05(t testing.TB, c C05Case) (key, what string, classes map[string]int) 
 			classes["real-curl-pinned"]++
 		}
 	}
+	if k, w := servedStill("after the last step"); k != "" {
+		return k, w, classes
+	}
 	classes[fmt.Sprintf("sites>=2:%v", sites >= 2)]++
 	return "", "", classes
 }
@@ -284,7 +322,7 @@ func genC05() *rapid.Generator[C05Case] {
 			c.CBAddrs = append(c.CBAddrs, rapid.SampledFrom([]string{"cb.example", "cb.example:8443", "10.9.8.7", "10.9.8.7:444", "[2001:db8::5]:4444", "2001:db8::6", "other.test:1"}).Draw(t, "cb"))
 		}
 		for i := rapid.IntRange(1, 5).Draw(t, "nsteps"); i > 0; i-- {
-			c.Steps = append(c.Steps, C05Step{Kind: rapid.SampledFrom([]string{"script", "script", "kill-shell", "restart", "custom-script", "curl", "restart-after-cache-removed"}).Draw(t, "step")})
+			c.Steps = append(c.Steps, C05Step{Kind: rapid.SampledFrom([]string{"script", "script", "kill-shell", "restart", "custom-script", "curl", "restart-after-cache-removed", "cache-replaced-while-running"}).Draw(t, "step")})
 		}
 		return c
 	})
